@@ -88,6 +88,8 @@ def moving_average(values:Sequence[float], span:Union[int,Sequence[float]]=None,
 
 #this adds one more check on average but avoids the worst case
 #scenario, which can be common for certain types of experiments.
+_END = object() #marks both ends of the sorted values of '!in'
+
 def my_bisect_left (c,a,l,h): return l if l<h and c[l]  ==a else bisect_left (c,a,l,h)
 def my_bisect_right(c,a,l,h): return h if l<h and c[h-1]==a else bisect_right(c,a,l,h)
 
@@ -483,8 +485,8 @@ class Table:
 
         if comparison == "!in":
             if method == "bisect":
-                arg = [None]+list(sorted(arg))+[None]
-                return [ (lo if v0 is None else my_bisect_right(col,v0,lo,hi), hi if v1 is None else my_bisect_left(col,v1,lo,hi)) for v0,v1 in zip(arg[0:],arg[1:])]
+                arg = [_END]+list(sorted(arg))+[_END]
+                return [ (lo if v0 is _END else my_bisect_right(col,v0,lo,hi), hi if v1 is _END else my_bisect_left(col,v1,lo,hi)) for v0,v1 in zip(arg[0:],arg[1:])]
             else:
                 return [ i for i,c in enumerate(col,lo) if c not in arg ]
 
